@@ -52,9 +52,15 @@
  *   X        key with alg K ok iff X == K
  * the pinned algorithm: */
 #define SPEC_SETKEY_OK(alg, haskey, keyalg) ( \
-	!(haskey) ? ((alg) == JWT_ALG_NONE) : \
-	((keyalg) == JWT_ALG_NONE) ? ((alg) != JWT_ALG_NONE) : \
-	((alg) == JWT_ALG_NONE || (alg) == (keyalg)))
+	(!(haskey) && (alg) == JWT_ALG_NONE) || \
+	((haskey) && (keyalg) == JWT_ALG_NONE && (alg) != JWT_ALG_NONE) || \
+	((haskey) && (keyalg) != JWT_ALG_NONE && ((alg) == JWT_ALG_NONE || (alg) == (keyalg))))
+/* x is the pinned algorithm of the pair (alg, key): the explicit algorithm,
+ * otherwise the key's own alg attribute, otherwise none */
+#define SPEC_IS_PINNED(x, alg, haskey, keyalg) ( \
+	((alg) != JWT_ALG_NONE && (x) == (alg)) || \
+	((alg) == JWT_ALG_NONE && (haskey) && (x) == (keyalg)) || \
+	((alg) == JWT_ALG_NONE && !(haskey) && (x) == JWT_ALG_NONE))
 #define SPEC_PINNED_ALG(alg, haskey, keyalg) \
 	((alg) != JWT_ALG_NONE ? (alg) : ((haskey) ? (keyalg) : JWT_ALG_NONE))
 
